@@ -574,8 +574,16 @@ class RawText(T):
         return self.text
 
 
+KEYWORDS = {'as', 'async', 'await', 'break', 'const', 'continue', 'dyn', 'else', 'enum', 'extern', 'false', 'fn', 'for', 'if', 'impl', 'in', 'let',
+            'loop', 'match', 'mod', 'move', 'mut', 'pub', 'ref', 'return', 'static', 'struct', 'trait', 'true', 'type', 'unsafe', 'use', 'where',
+            'while', 'abstract', 'become', 'box', 'do', 'final', 'macro', 'override', 'priv', 'try', 'typeof', 'unsized', 'virtual', 'yield', 'gen'}
+
+
 def strip_raw(s):
-    return s[2:] if s.startswith('r#') else s
+    # module_path!() prints a raw identifier with its r# prefix only when the name is a keyword (r#try), not otherwise (r#mod2 -> mod2)
+    if s.startswith('r#') and s[2:] not in KEYWORDS:
+        return s[2:]
+    return s
 
 
 def subst_l(t, env):
@@ -692,6 +700,11 @@ def main():
     it.variants = [Variant('Transfer', 'n', [Field('amount', T('u', n=64), compact=True), Field('to', u8)]),
                    Variant('Refund', 'n', [Field('amount', T('u', n=64)), Field('to', u8, skip=True)]),
                    Variant('Hold', 'n', [Field('amount', T('u', n=64), skip=True), Field('to', u32, compact=True), Field('x', bl)])]
+    # modules named by raw identifiers that are keywords: the module path keeps the r# prefix
+    it = cat_item(mods=['r#try', 'r#async'])
+    it.fields = [Field('r#type', u8), Field('b', u16)]
+    it = cat_item(mods=['r#dyn'])
+    it.replace, it.fields = [('r#dyn', 'plain')], [Field('a', u8)]
     # `#[codec(index = ..)]` in every spelling of an integer literal
     it = cat_item()
     it.is_enum = True
